@@ -490,20 +490,16 @@ type lawCase struct {
 // circular window (start, length) of a sequence of length n.
 func circularForms(n, start, length int) [][2]int {
 	end := start + length // 1 .. 2n-1
-	forms := [][2]int{{start, end}}
+	forms := [][2]int{{start, end}} // to = from + length, possibly beyond the end
 	if end > n {
-		forms = append(forms, [2]int{start, end - n}) // wrapped: to <= from
+		forms = append(forms,
+			[2]int{start, end - n},     // wrapped: to <= from (to == from: the full circle)
+			[2]int{start + n, end - n}) // from beyond the end (a primer match spanning the junction)
+	} else {
+		forms = append(forms, [2]int{start + n, end})
 	}
 	if end == n {
-		forms = append(forms, [2]int{start, 0}) // "up to the end", to < from or both 0
-	}
-	if end <= n || end-n <= start {
-		// from beyond the end (a match spanning the junction), to understood mod n
-		if end > n {
-			forms = append(forms, [2]int{start + n, end - n})
-		} else if end > start+0 && start+n >= end {
-			forms = append(forms, [2]int{start + n, end})
-		}
+		forms = append(forms, [2]int{start, 0}) // "up to the end of the circle"
 	}
 	return forms
 }
